@@ -5,7 +5,8 @@ dispatch for the *core* instruction set, `Exec.check` (quick checks + solver ora
 
 Core instruction set (stage 1): STOP, the 25 word instructions (through `execWord`, Model.BitVecOps),
 POP, PUSH0..PUSH32, DUP1..16, SWAP1..16, JUMPDEST, PC, JUMP, JUMPI, CALLDATALOAD, CALLDATASIZE, CALLER,
-CALLVALUE, ORIGIN, ADDRESS, INVALID, and RETURN/REVERT with a concrete zero size. Every other opcode ends the path
+CALLVALUE, ORIGIN, ADDRESS, INVALID, MLOAD / MSTORE / MSTORE8 with concrete offsets, and RETURN/REVERT with concrete
+offset and size (the end state carries the returned byte terms). Every other opcode ends the path
 as *stuck* (which the engine reports as an error, never as a normal outcome) — so the theorems about this model
 are statements for all programs, and are informative for the programs over the core set.
 
@@ -36,6 +37,7 @@ structure Cfg where
   loop : Nat := 2
   depth : Nat := 0                 -- `--depth`: 0 = unlimited, else the maximal number of steps of the whole run
   word : WordCfg := {}
+  maxMem : Nat := 2 ^ 20           -- `MAX_MEMORY_SIZE` (constants.py)
 
 /-- the symbolic transaction: what CALLER, CALLVALUE, … push, and the calldata read as 32-byte words -/
 structure Env where
@@ -54,6 +56,7 @@ structure SState where
   path : List B                    -- path conditions, oldest first
   visits : List (JumpId × (Nat × Nat)) := []   -- per jump id: (taken, not taken) counts on this path
   subst : List (T × T) := []       -- `path.concretization.substitution`: term ↦ literal, newest binding first
+  mem : List T := []               -- memory as a flat array of byte terms (width 8), zero beyond its end
 
 inductive StuckReason where
   | notConcrete | unsupported (op : Nat) | internal (e : PyErr)
@@ -68,12 +71,14 @@ inductive Out where
     (InvalidJumpDest raised for a JUMPI whose condition is symbolic: both branches are lost in the current code) -/
 inductive Tag where
   | normal | jumpiInvalidSym
+  | memLimit     -- OutOfGasError raised by a `MAX_MEMORY_SIZE` check: the limit is a modelling parameter, not EVM behaviour
   deriving DecidableEq, Repr
 
 structure EndState where
   st : SState
   out : Out
   tag : Tag := .normal
+  data : List T := []              -- return / revert data: byte terms (the `data` of `out = .halt (.success _)` stays [])
 
 structure Result where
   ends : List EndState := []
@@ -114,6 +119,41 @@ def addCond (s : Simp) (st : SState) (c : B) : SState :=
 def substGet (sub : List (T × T)) (t : T) : Option T :=
   (sub.find? (fun p => p.1 == t)).map (·.2)
 
+/-! ### memory: a flat zero-extended array of byte terms (the flat specification `Spec.Bytes`, which `ByteVec` refines
+for every history of writes, slices and reads: Props.C07 `history_refines`) -/
+
+def zeroByte : T := .lit 8 0
+
+/-- read `n` bytes from `off`, zero beyond the end (`memory.slice` / `get_word`) -/
+def readMem (m : List T) (off n : Nat) : List T :=
+  (List.range n).map fun i => (m[off + i]?).getD zeroByte
+
+/-- write `data` at `off`, zero-filling any gap (`set_slice` / `set_word` / `set_byte`) -/
+def writeMem (m : List T) (off : Nat) (data : List T) : List T :=
+  if data.isEmpty then m
+  else
+    let m' := if m.length < off + data.length then m ++ List.replicate (off + data.length - m.length) zeroByte else m
+    m'.take off ++ data ++ m'.drop (off + data.length)
+
+/-- the 32 bytes of a 256-bit word, most significant first -/
+def wordBytes : Rep → List T
+  | .con n => (List.range 32).map fun i => .lit 8 ((n / 2 ^ (8 * (31 - i))) % 256)
+  | .sym t => (List.range 32).map fun i => .extract (8 * (31 - i) + 7) (8 * (31 - i)) t
+
+def litByte? : T → Option Nat
+  | .lit 8 b => some b
+  | _ => none
+
+def concatBytes : List T → T
+  | [] => .lit 256 0
+  | b :: rest => rest.foldl (fun acc x => .concat acc x) b
+
+/-- `unbox_int(slice.unwrap())` pushed with `push_any`: an int when every byte is concrete, else the concatenation -/
+def bytesWord (s : Simp) (bs : List T) : HV :=
+  match bs.mapM litByte? with
+  | some ns => .bv 256 (.con (Evm.bytesToNat ns))
+  | none => mkBV s (.term (concatBytes bs)) 256
+
 def opAt (code : List Nat) (pc : Nat) : Nat := (code[pc]?).getD 0x00   -- implicit STOP beyond the end
 
 def wordOpOf : Nat → Option WordOp
@@ -151,7 +191,8 @@ structure StepOut where
   bounded : List JumpId := []
 
 def stuckOut (st : SState) (r : StuckReason) : StepOut := { ends := [{ st, out := .stuck r }] }
-def haltOut (st : SState) (h : Evm.Halt) (tag : Tag := .normal) : StepOut := { ends := [{ st, out := .halt h, tag }] }
+def haltOut (st : SState) (h : Evm.Halt) (tag : Tag := .normal) (data : List T := []) : StepOut :=
+  { ends := [{ st, out := .halt h, tag, data }] }
 def contOut (st : SState) : StepOut := { next := [st] }
 
 /-- `SEVM.jumpi` for a condition that is neither the literal true nor the literal false -/
@@ -298,19 +339,46 @@ def step (s : Simp) (o : Oracle) (cfg : Cfg) (env : Env) (code : List Nat) (st :
           | .error e => stuckOut st (.internal e)
         | _ => stuckOut st .notConcrete        -- symbolic JUMPI target
     else if op = 0xf3 ∨ op = 0xfd then
-      -- `ret()`: `loc = int_of(popi())`, then `size = int_of(popi())`
+      -- `ret()`: `loc = mloc(check_size=False)`, `size = int_of(popi())`, then `mslice(loc, size)`
       match st.stack with
       | [] => haltOut st .stackUnderflow
       | ov :: rest0 =>
         match toBV256 s ov with
-        | .bv _ (.con _) =>
+        | .bv _ (.con loc) =>
           match rest0 with
           | [] => haltOut st .stackUnderflow
           | sv :: _ =>
             match toBV256 s sv with
-            | .bv _ (.con 0) => haltOut st (if op = 0xf3 then .success [] else .revert [])
-            | .bv _ (.con _) => stuckOut st (.unsupported op)    -- memory is outside the core
+            | .bv _ (.con size) =>
+              let h : Evm.Halt := if op = 0xf3 then .success [] else .revert []
+              if size = 0 then haltOut st h
+              else if loc + size > cfg.maxMem then haltOut st .outOfGas .memLimit
+              else haltOut st h .normal (readMem st.mem loc size)
             | _ => stuckOut st .notConcrete
+        | _ => stuckOut st .notConcrete
+    else if op = 0x51 ∨ op = 0x52 ∨ op = 0x53 then
+      -- MLOAD / MSTORE / MSTORE8: `loc = mloc(check_size=True)` first (symbolic: NotConcreteError; beyond the limit:
+      -- OutOfGasError), then the value operand
+      match st.stack with
+      | [] => haltOut st .stackUnderflow
+      | lv :: rest0 =>
+        match toBV256 s lv with
+        | .bv _ (.con loc) =>
+          if loc > cfg.maxMem then haltOut st .outOfGas .memLimit
+          else if op = 0x51 then
+            contOut { st with pc := st.pc + 1, stack := bytesWord s (readMem st.mem loc 32) :: rest0 }
+          else
+            match rest0 with
+            | [] => haltOut st .stackUnderflow
+            | v :: rest =>
+              if op = 0x52 then
+                match toBV256 s v with            -- `val = popi()`; `memory.set_word(loc, val)`
+                | .bv _ r => contOut { st with pc := st.pc + 1, stack := rest, mem := writeMem st.mem loc (wordBytes r) }
+                | .bool _ => stuckOut st (.internal .typeError)
+              else
+                match reBV s v 8 with             -- `memory.set_byte(loc, uint8(val))`
+                | .bv _ r => contOut { st with pc := st.pc + 1, stack := rest, mem := writeMem st.mem loc [asZ3 8 r] }
+                | .bool _ => stuckOut st (.internal .typeError)
         | _ => stuckOut st .notConcrete
     else stuckOut st (.unsupported op)
 
